@@ -1121,6 +1121,11 @@ func (f *Frugal) validateConstant(constant *Constant) error {
 		}
 		return fmt.Errorf("Referenced constant %s not found", name)
 	} else if len(pieces) == 2 {
+		// A value of an enum from this file
+		if f.hasEnumValue(pieces[0], pieces[1]) {
+			return nil
+		}
+
 		// From an include
 		frugal := f
 		includeName := pieces[0]
@@ -1139,9 +1144,30 @@ func (f *Frugal) validateConstant(constant *Constant) error {
 		}
 		return fmt.Errorf("Referenced constant %s from include %s not found",
 			paramName, includeName)
+	} else if len(pieces) == 3 {
+		// A value of an enum from an include
+		if include, ok := f.ParsedIncludes[pieces[0]]; ok && include.hasEnumValue(pieces[1], pieces[2]) {
+			return nil
+		}
 	}
 
 	return fmt.Errorf("Invalid constant name %s", name)
+}
+
+// hasEnumValue indicates if this file declares an enum with the given name
+// which has a value with the given name.
+func (f *Frugal) hasEnumValue(enumName, valueName string) bool {
+	for _, enum := range f.Enums {
+		if enum.Name != enumName {
+			continue
+		}
+		for _, value := range enum.Values {
+			if value.Name == valueName {
+				return true
+			}
+		}
+	}
+	return false
 }
 
 func (f *Frugal) validateTypedefs() error {
